@@ -208,4 +208,27 @@ TEXTS.update({
         "technique": "Lean 4 proof (composition of the FSub convergence, monitor and cascade theorems + a 'last refilter is current' invariant) + behavioural conformance of all joins under testing/synctest",
     },
 })
+TEXTS["_engines"].append({"name": "typed", "path": "harness/conc/typed_test.go", "serves_properties": ["C20"],
+    "kind_free_text": "typed (pod, service) and untyped controller/subscription/monitor side by side on a fake server serving mixed types, under testing/synctest (kdriver typed)"})
+TEXTS["_engines"].append({"name": "rest", "path": "harness/cmd/kharness/rest.go", "serves_properties": ["C20"],
+    "kind_free_text": "the twelve typed REST clients through a recording RoundTripper; requests vs the Lean request model (kdriver rest)"})
+TEXTS["_engines"].append({"name": "kextract", "path": "harness/cmd/kextract", "serves_properties": ["C20"],
+    "kind_free_text": "translator: regenerates lean/KcacheModel/Extracted/*.lean (token streams of templates and generated sources, generation rules) from /repo on every run"})
+TEXTS.update({
+    "C20": {
+        "text": "Lean theorems: (a) for each of the 12 typed packages and 8 generated joins the generated file's token stream equals the template instantiated with the "
+                "Makefile's parameters (kernel-evaluated equalities over streams regenerated from /repo on every run), and every generated file on disk is covered; "
+                "(b) the typed layer is the untyped core mapped through the adapter: restriction is a homomorphism on events and callbacks, foreign objects are skipped without "
+                "disturbing what follows, the typed monitor log is Initialize(restricted list) followed by the callbacks of the typed events, and replaying the typed events "
+                "yields the typed view of the untyped cache (for all event sequences, given types do not share keys — with a counterexample when they do); "
+                "(c) the REST request of every List/Watch call: path = API prefix [+ watch] [+ namespaces/ns] + resource, all namespaces iff ns is empty, the namespace is "
+                "determined by the path, the query carries exactly the call's own options, requests are stateless; each package has its own resource. "
+                "Tie: regenerated translator for (a); side-by-side typed/untyped runs and recorded HTTP requests compared with the model for (b), (c).",
+        "design_ref": "DESIGN.md §7 C20",
+        "note": "Source equality ignores import blocks and comments. Only pod and service are run side by side with the core; the other ten packages inherit (b) through (a). "
+                "The API table (which group/version serves which type) is hand-written and trusted.",
+        "technique": "Lean 4 proof (kernel-evaluated equalities on regenerated token streams; adapter homomorphism and replay-restriction theorems; REST request algebra) "
+                     "+ regenerated translator + behavioural conformance (typed vs untyped under testing/synctest, recorded REST requests)",
+    },
+})
 NOT_BUILT = {}
